@@ -24,7 +24,7 @@ def is_error_token_test(a, v):
     return a[0] == "call" and "PartialEq" in a[1] and v == 1 and any(x[0] == "agg" and x[2] == "ErrorToken" for x in a[2])
 
 
-def r03_1(ctx):
+def r03_1(ctx, rid="R03.1"):
     F = ctx.facts
 
     def body(r):
@@ -87,7 +87,7 @@ def r03_1(ctx):
             if (HF, "last_buffer") in e.writes:
                 writers.append(g.key)
         r.ob("carry:last_buffer-writers", sorted(writers) == [HF + "::filter", HF + "::new"] or sorted(writers) == [HF + "::filter"], f.site, "last_buffer is written by %s" % sorted(writers))
-    ctx.run_rule("R03.1", "carry-over discipline of held-back bytes", body, floor=3)
+    ctx.run_rule(rid, "carry-over discipline of held-back bytes", body, floor=3)
 
 
 def r03_2(ctx):
@@ -226,7 +226,87 @@ def r03_4(ctx):
     ctx.run_rule("R03.4", "end() chaining of the stage list", body, floor=4)
 
 
+TAG_TOKENS = ("StartTagToken", "EndTagToken", "SelfClosingTagToken")
+READERS = ("read_tag", "read_start_tag", "read_tag_name", "read_tag_name_attr_key", "read_tag_name_attr_value", "skip_white_space", "read_byte")
+
+
+def r03_5(ctx):
+    """A pending text that may contain the beginning of an unfinished tag is held back: the
+    look-ahead loop is entered whenever the text contains `<` anywhere."""
+    F = ctx.facts
+
+    def body(r):
+        f = F.method(HF, "filter")
+        r.analysed(f)
+        s = Sym(f, copies=True, max_paths=400000)
+        heads = sorted({h for _, h in f.back_edges()})
+        if len(heads) != 2:
+            r.ob("hold-back:loops", False, f.site, "%d loops" % len(heads))
+            return
+        outer = max(heads, key=lambda h: len(f.loop_blocks(h)))
+        inner = [h for h in heads if h != outer][0]
+        inner_blocks = f.loop_blocks(inner)
+        # conditions under which the look-ahead body is entered / skipped, from the inner header
+        tests = set()
+        for p in s.paths(start=inner, stops={outer}):
+            for e in p.events:
+                if e[0] == "cond" and e[1][0] == "call" and e[3] in inner_blocks:
+                    a = e[1]
+                    name = a[1].rsplit("::", 1)[1]
+                    if name in ("contains", "find", "ends_with", "starts_with", "rfind") or "memchr" in a[1]:
+                        const = [x[1] for x in a[2] if x[0] == "const"]
+                        tests.add((name, const[0] if const else None))
+        anywhere = {t for t in tests if t[0] in ("contains", "find", "rfind") and t[1] in ("<", "</")}
+        weaker = {t for t in tests if t[0] in ("ends_with", "starts_with")}
+        r.ob("hold-back:tests-for-<-anywhere", ("contains", "<") in tests or ("find", "<") in tests or ("rfind", "<") in tests, f.site,
+             "pending text is held back when it contains `<` anywhere (tests %s)" % sorted(tests, key=str) if anywhere and not weaker else "the hold-back test is %s: a text ending inside an unfinished tag (`abc</ti`) is emitted instead of carried" % sorted(tests, key=str))
+        r.ob("hold-back:no-weaker-test", not weaker, f.site, "no positional (ends_with / starts_with) test replaces the containment test: %s" % sorted(weaker, key=str))
+    ctx.run_rule("R03.5", "text that may hold an unfinished tag is held back", body, floor=2)
+
+
+def r03_6(ctx):
+    """A tag token is never reported once the tokenizer ran out of input while reading it."""
+    F = ctx.facts
+
+    def body(r):
+        n = 0
+        for name in ("next", "read_start_tag"):
+            f = F.method(TOK, name)
+            r.analysed(f)
+            bad = set()
+            for p in Sym(f, copies=True, max_paths=400000).paths():
+                if p.end[0] not in ("ret",):
+                    continue
+                # timeline: last reading call, then a test of self.err, then the tag token
+                last_read = -1
+                err_ok_after = -1
+                for i, e in enumerate(p.events):
+                    if e[0] == "call" and e[1].startswith(TOK + "::") and e[1].rsplit("::", 1)[1] in READERS:
+                        last_read = i
+                    if e[0] == "cond" and e[1][0] == "call" and e[1][1] == "std::option::Option::is_some" and e[1][2][0] == ("field", ("param", 1), "err", TOK) and e[2] == 0:
+                        err_ok_after = i
+                    tok = None
+                    if e[0] == "write" and e[1] == ("field", ("param", 1), "token", TOK) and e[2][0] == "agg" and e[2][2] in TAG_TOKENS:
+                        tok = e[2][2]
+                    if e[0] == "ret" and name == "read_start_tag":
+                        v = e[1]
+                        if v[0] == "agg" and v[2] == "Ok":
+                            inner = dict(v[3]).get("0")
+                            if inner and inner[0] == "agg" and inner[2] in TAG_TOKENS:
+                                tok = inner[2]
+                    if tok is not None:
+                        n += 1
+                        if last_read >= 0 and err_ok_after < last_read:
+                            bad.add(tok)
+            r.ob("eof-token:%s" % name, not bad, f.site,
+                 "every tag token is reported only after `err` was found unset following the last read" if not bad else "%s can be reported although the input ended while the tag was being read: a partial tag is then processed as complete instead of being carried to the next chunk" % sorted(bad))
+        r.ob("eof-token:sites", n >= 4, "", "%d tag-token reports examined" % n)
+    ctx.run_rule("R03.6", "no tag token once the input ended inside the tag", body, floor=3)
+
+
 def run(ctx):
+    r03_5(ctx)
+    r03_6(ctx)
     r03_1(ctx)
     r03_2(ctx)
     r03_3(ctx)
